@@ -257,14 +257,16 @@ impl Property for C12 {
             pattern: a.pattern.clone(),
             pieces,
             focus: None,
-            err_style: match hash64(&(&a.plain, &a.pattern)) % 10 {
-                0..=3 => 0,
-                k => (k - 3) as u8 % 6,
+            err_style: match hash64(&(&a.plain, &a.pattern)) % 12 {
+                0..=3 | 9 => 0,
+                10 => 6, // WouldBlock
+                11 => 8, // TimedOut (7 = Interrupted is left out: read_exact / write_all retry it by contract)
+                k => (k - 3) as u8,
             },
         }
     }
     fn rule(&self) -> String {
-        "proptest generates an input for one of {lzma_decompress, lzma2_decompress, xz_decompress, lzma_compress (3 options), lzma2_compress, xz_compress, Stream(write*/finish)} (valid streams incl. LZMA outputs several times a 4096-byte window; plain data 0..1500 bytes) and a source fragmentation; a dry run with counting wrappers gives W write calls and R source calls; then the check ENUMERATES: for every k < W the k-th sink write fails; for every k < R the k-th source call (read/fill_buf) fails (transient); the injected io::Error is built in one of six ways per case (kind Other with text, kind Other / BrokenPipe without payload, from_raw_os_error, UnexpectedEof, InvalidData); sampled: the same with a sink that accepts at most 3 bytes per call; sinks accepting 1 byte / a random short count per call (no fault); a failing flush. Oracle: a fault => Err (not Ok, not panic) and the bytes the sink accepted are a prefix of the fault-free output; short-write sinks => Ok and complete identical output; failing flush => LZMA / LZMA2 decoders Err; on success the LZMA / LZMA2 decoders have flushed after their last write. Non-trivial = fault position k >= 1; distinct = (input hash, fault).".into()
+        "proptest generates an input for one of {lzma_decompress, lzma2_decompress, xz_decompress, lzma_compress (3 options), lzma2_compress, xz_compress, Stream(write*/finish)} (valid streams incl. LZMA outputs several times a 4096-byte window; plain data 0..1500 bytes) and a source fragmentation; a dry run with counting wrappers gives W write calls and R source calls; then the check ENUMERATES: for every k < W the k-th sink write fails; for every k < R the k-th source call (read/fill_buf) fails (transient); the injected io::Error is built in one of eight ways per case (kind Other with text, kind Other / BrokenPipe without payload, from_raw_os_error, UnexpectedEof, InvalidData, WouldBlock, TimedOut); sampled: the same with a sink that accepts at most 3 bytes per call; sinks accepting 1 byte / a random short count per call (no fault); a failing flush. Oracle: a fault => Err (not Ok, not panic) and the bytes the sink accepted are a prefix of the fault-free output; short-write sinks => Ok and complete identical output; failing flush => LZMA / LZMA2 decoders Err; on success the LZMA / LZMA2 decoders have flushed after their last write. Non-trivial = fault position k >= 1; distinct = (input hash, fault).".into()
     }
     fn required_classes(&self, tier: Tier) -> Vec<(&'static str, u64)> {
         let k = tier.pick(1, 10);
@@ -287,12 +289,14 @@ impl Property for C12 {
 
     fn judge(&self, c: &mut Case, st: &mut LocalStats) -> Judgement {
         let _style = crate::iowrap::set_err_style(c.err_style);
-        st.class(match c.err_style % 6 {
+        st.class(match c.err_style {
             0 => "error:new(Other, text)",
             1 => "error:from(Other), no payload",
             2 => "error:from(BrokenPipe)",
             3 => "error:from_raw_os_error",
             4 => "error:new(UnexpectedEof, text)",
+            6 => "error:new(WouldBlock, text)",
+            8 => "error:new(TimedOut, text)",
             _ => "error:new(InvalidData, text)",
         });
         let clean = run_entry(c, &SinkCfg::default(), None);
